@@ -1228,9 +1228,13 @@ package rtcp
 
 //@ func (x *ExtendedReport) String() (result string)
 //@   trusted
+//@   bounded[C17] genXRPtr
+//@   ensures nonempty: len(result) > 0
 
 //@ func stringify(p Packet) (result string)
 //@   trusted
+//@   bounded[C17] genStringifyArg
+//@   ensures nonempty: len(result) > 0
 
 // ===================================================================================================
 // packet.go
